@@ -1,10 +1,159 @@
 import Driver.Common
-/-! Judge for C16: not built yet (stub so that the target exists). -/
-open Lean Driver
+import EgVerif.Spec.BrokerSessions
+/-! Judge for C16: replays the harness schedule in the model (`runMacro`), compares the
+snapshot after every macro action, evaluates the executable property (`violation`) on what
+the implementation showed. -/
+open Lean Driver EgVerif.BrokerSessions
 
 namespace Driver.C16
 
-def judges : List (String × Judge) := []
+partial def parseMacro (j : Json) : Except String MAct := do
+  let op ← getStr j "op"
+  let k := (optInt j "k").toNat
+  let f := (optInt j "f").toNat
+  match op with
+  | "connect" => pure (.connect k (optBool j "clean"))
+  | "sub" => pure (.sub k f)
+  | "unsub" => pure (.unsub k f)
+  | "drop" => pure (.drop k)
+  | "admindel" => pure .admindel
+  | "watch" => pure .watch
+  | "par" =>
+    let a ← getArr j "par"
+    match a.toList with
+    | [x, y] => do
+      let mx ← parseMacro x
+      let my ← parseMacro y
+      pure (.par mx my)
+    | [x] => parseMacro x
+    | _ => throw "par arity"
+  | _ => throw ("op " ++ op)
+
+def natList (j : Json) (k : String) : Except String (List Nat) := do
+  let a ← getArr j k
+  a.toList.mapM (·.getNat?)
+
+structure ObsStep where
+  snap : Snap
+  skipped : Bool
+  err : String
+  code : Int
+  seen : List Nat
+  disc : List Nat
+
+def parseStep (j : Json) : Except String ObsStep := do
+  let reg := optInt j "reg" (-1)
+  let st ← natList j "sessTopics"
+  let dbt ← natList j "dbTopics"
+  let tm ← natList j "tm"
+  let snap : Snap :=
+    { reg := if reg < 0 then none else some reg.toNat, regDisc := optBool j "regDisc",
+      sessMap := optBool j "sessMap", sessTopics := st, sessClean := optBool j "sessClean",
+      sessClosed := optBool j "sessClosed",
+      db := if optBool j "db" then some (dbt, optBool j "dbClean") else none,
+      tm := tm, watch := (optInt j "watch").toNat }
+  pure { snap := snap, skipped := optBool j "skipped", err := optStr j "err", code := optInt j "code" (-1),
+         seen := ← natList j "seen", disc := ← natList j "disc" }
+
+def snapJson (s : Snap) : Json :=
+  Json.mkObj [("reg", match s.reg with | some k => Json.num k | none => Json.num (-1 : Int)),
+    ("regDisc", s.regDisc), ("sessMap", s.sessMap),
+    ("sessTopics", Json.arr (s.sessTopics.map (fun (n : Nat) => Json.num n)).toArray),
+    ("sessClean", s.sessClean), ("sessClosed", s.sessClosed),
+    ("db", match s.db with
+      | some (t, c) => Json.mkObj [("topics", Json.arr (t.map (fun (n : Nat) => Json.num n)).toArray), ("clean", c)]
+      | none => Json.null),
+    ("tm", Json.arr (s.tm.map (fun (n : Nat) => Json.num n)).toArray), ("watch", s.watch)]
+
+def macroTag : MAct → String
+  | .connect _ c => if c then "connect-clean" else "connect-persistent"
+  | .sub .. => "sub" | .unsub .. => "unsub" | .drop _ => "drop"
+  | .admindel => "admindel" | .watch => "watch" | .par .. => "par"
+
+structure Acc where
+  cands : List St            -- model states compatible with the observations so far
+  prev : Snap
+  agree : Bool := true
+  sig : String := ""
+  note : String := ""
+  tags : List String := []
+  expected : List Json := []
+
+def discOk (o : ObsStep) (s : St) : Bool :=
+  o.seen.all (fun k => (o.disc.contains k) == (s.conn k).disc)
+
+/-- everything of a model state that later steps can depend on (connections 0..15) -/
+def stKey (s : St) : Snap × List Conn × List Sess × Option Nat × Bool :=
+  (project s, (List.range 16).map s.conn, (List.range s.nextSess).map s.sess, s.sessMap, s.doubleClose)
+
+def dedupSt (l : List (St × Bool)) : List (St × Bool) :=
+  (l.foldl (fun (acc : List ((Snap × List Conn × List Sess × Option Nat × Bool) × Bool × St)) (p : St × Bool) =>
+    let k := stKey p.1
+    if acc.any (fun e => e.1 == k && e.2.1 == p.2) then acc else acc ++ [(k, p.2, p.1)]) []).map
+    (fun e => (e.2.2, e.2.1))
+
+def stepJudge (acc : Acc) (m : MAct) (o : ObsStep) : Acc :=
+  -- model
+  let nexts : List (St × Bool) := acc.cands.flatMap (fun s =>
+    let sk := skipped true s m
+    (if sk then [s] else runMacro true s m).map (fun s' => (s', sk)))
+  let nexts := dedupSt nexts
+  let matching := nexts.filter (fun (s', sk) => project s' == o.snap && sk == o.skipped && discOk o s')
+  let agree := acc.agree && !matching.isEmpty && o.err == ""
+  let note := if acc.note == "" && (matching.isEmpty || o.err != "") then
+      s!"step {acc.expected.length} {macroTag m}: err='{o.err}' skipped={o.skipped}" else acc.note
+  -- spec on the implementation's observations
+  let superseded := match m, acc.prev.reg with
+    | .drop j, some k => k != j && !acc.prev.regDisc
+    | _, _ => false
+  let v := violation acc.prev m o.skipped o.snap
+  let v := match v, m, acc.prev.reg with
+    | none, .watch, some k =>
+      if !o.skipped && o.seen.contains k && !o.disc.contains k then some "admin-delete:client-not-disconnected" else none
+    | v, _, _ => v
+  let v := if v.isNone && o.err != "" then some ("harness-error:" ++ o.err) else v
+  let sig := if acc.sig == "" then (match v with | some s => s | none => "") else acc.sig
+  let tags := acc.tags ++ [macroTag m] ++ (if superseded && !o.skipped then ["superseded-teardown"] else [])
+    ++ (if o.skipped then ["skipped"] else [])
+    ++ (match m, acc.prev.reg with
+        | .connect .., some _ => if !o.skipped then ["takeover"] else []
+        | _, _ => [])
+  { cands := if matching.isEmpty then nexts.map (·.1) |>.take 1 else matching.map (·.1),
+    prev := o.snap, agree := agree, sig := sig, note := note, tags := tags,
+    expected := acc.expected ++ [match nexts with | (s', _) :: _ => snapJson (project s') | [] => Json.null] }
+
+def dedup (l : List String) : List String := l.foldl (fun acc x => if acc.contains x then acc else acc ++ [x]) []
+
+def judge : Judge := liftJudge fun input obs => do
+  match obsPanic obs with
+  | some m => pure { agree := false, spec := false, sig := "panic-or-hang", note := m }
+  | none =>
+  let acts ← getArr input "actions"
+  let macros ← acts.toList.mapM parseMacro
+  let stepsJ ← getArr obs "steps"
+  let steps ← stepsJ.toList.mapM parseStep
+  if steps.length != macros.length then
+    pure { agree := false, spec := true, note := "judge-bad-input: steps/actions length" }
+  else
+  let acc := (macros.zip steps).foldl (fun acc (m, o) => stepJudge acc m o)
+    { cands := [EgVerif.BrokerSessions.init], prev := project EgVerif.BrokerSessions.init }
+  -- delivery probe: the surviving connection receives exactly the messages of the topics its session holds
+  let probed := optBool obs "probed"
+  let delivered ← natList obs "delivered"
+  let last := acc.prev
+  let liveCur := last.reg.isSome && !last.regDisc
+  let probeSig :=
+    if probed && liveCur && !subset last.sessTopics delivered then "delivery:subscribed-topic-not-received"
+    else ""
+  let probeAgree := !probed || delivered == last.tm
+  let sig := if acc.sig != "" then acc.sig else probeSig
+  let nt := acc.tags.contains "superseded-teardown" || acc.tags.contains "takeover" || acc.tags.contains "watch"
+  pure { agree := acc.agree && probeAgree && (probed == liveCur), spec := sig == "", sig := sig,
+         note := if acc.note != "" then acc.note else if !probeAgree then "probe differs from TopicManager view" else "",
+         tags := dedup acc.tags ++ (if probed then ["probed"] else []),
+         nontrivial := nt, expected := Json.arr acc.expected.toArray }
+
+def judges : List (String × Judge) := [("C16", judge)]
 
 end Driver.C16
 
